@@ -255,8 +255,8 @@ func (tp *TableParser) parseCell(cell tableCellXML) ParsedTableCell {
 	if props.VMerge.Val == "restart" {
 		// This cell starts a vertical merge
 		parsed.RowSpan = 1 // Will be calculated in processVerticalMerges
-	} else if props.VMerge.Val == "" && props.VMerge.XMLName.Local == "vMerge" {
-		// This cell continues a vertical merge (empty val means continue)
+	} else if (props.VMerge.Val == "" || props.VMerge.Val == "continue") && props.VMerge.XMLName.Local == "vMerge" {
+		// This cell continues a vertical merge ("continue" is the default value of w:val)
 		parsed.IsMergedContinuation = true
 	}
 
